@@ -341,3 +341,131 @@ Proof.
         -- intros c' Hc'. apply child_inv in Hc' as [j [-> _]]. apply anc_not_under_child; auto.
         -- apply sprefix_child; auto.
 Qed.
+
+(* ---------- __setitem__ ------------------------------------------------------------------ *)
+
+Lemma fold_step_none : forall r, fold_left step r None = None.
+Proof. induction r; simpl; auto. Qed.
+
+Lemma leaf_no_children : forall env p c d r, ty_at env p = Some (TLeaf c d) -> r <> [] -> ty_at env (p ++ r) = None.
+Proof.
+  intros env [|x sel] c d r H Hr; simpl in *; [discriminate|].
+  rewrite fold_left_app, H. destruct r as [|i r]; [congruence|]. simpl. apply fold_step_none.
+Qed.
+
+Lemma ancestors_complete : forall p a, a <> [] -> sprefix a p -> In a (ancestors p).
+Proof.
+  induction p as [|x p IH]; intros a Ha [r [Hr Hp]].
+  - destruct a; [congruence | discriminate].
+  - destruct a as [|y a]; [congruence|]. simpl in Hp. injection Hp as Hxy Hp'. subst y.
+    destruct a as [|z a].
+    + simpl in Hp'. subst p. destruct r as [|i r]; [congruence|]. simpl. left. reflexivity.
+    + subst p. change (In (x :: z :: a) ([x] :: map (cons x) (ancestors ((z :: a) ++ r)))). right.
+      apply in_map. apply IH; [congruence|]. exists r. auto.
+Qed.
+
+Lemma set_S : forall fixed env f p w st, set fixed env (S f) p w st =
+  match ty_at env p with
+  | Some (TNode cs) =>
+      let outs := seq (next st) (length cs) in
+      let st1 := mkState (locals st) (next st + length cs) (log st ++ [OUnpack w outs]) in
+      match set_list (set fixed env f) (combine (children_pids p cs) outs) st1 with
+      | None => None
+      | Some st2 => Some (mkState (remove p (locals st2)) (next st2) (log st2))
+      end
+  | Some (TLeaf _ _) =>
+      let l1 := (p, w) :: remove p (locals st) in
+      let l2 := if fixed then fold_left (fun l a => remove a l) (ancestors p) l1 else l1 in
+      Some (mkState l2 (next st) (log st))
+  | None => None
+  end.
+Proof. reflexivity. Qed.
+
+Lemma set_list_inv : forall env (setf : pid -> wire -> state -> option state),
+  (forall p w st st', dfc_inv env st -> setf p w st = Some st' -> dfc_inv env st') ->
+  forall pws st st', dfc_inv env st -> set_list setf pws st = Some st' -> dfc_inv env st'.
+Proof.
+  intros env setf H. induction pws as [|[q w] pws IH]; simpl; intros st st' Hi Hs.
+  - inversion Hs; subst; auto.
+  - destruct (setf q w st) as [st1|] eqn:E; [|discriminate]. eauto.
+Qed.
+
+Lemma set_spec : forall env f p w st st', dfc_inv env st -> set true env f p w st = Some st' -> dfc_inv env st'.
+Proof.
+  intros env. induction f as [|f IH]; intros p w st st' Hinv H; [discriminate|].
+  rewrite set_S in H. destruct (ty_at env p) as [[c d|cs]|] eqn:Et; [| |discriminate].
+  - inversion H; subst; clear H. unfold dfc_inv, keys. simpl.
+    intros x y Hx Hinx Hiny Hsp.
+    apply In_remove_all in Hinx as [Hinx Hax]. apply In_remove_all in Hiny as [Hiny Hay].
+    simpl in Hinx, Hiny.
+    destruct Hiny as [Ey | Hiny].
+    + subst y. exfalso. apply Hax. apply ancestors_complete; auto.
+    + destruct Hinx as [Ex | Hinx].
+      * subst x. destruct Hsp as [r [Hr Hy]]. unfold lin_at. subst y.
+        rewrite (leaf_no_children _ _ _ _ _ Et Hr). reflexivity.
+      * apply In_remove in Hinx as [Hinx _]. apply In_remove in Hiny as [Hiny _]. eapply Hinv; eauto.
+  - simpl in H.
+    destruct (set_list (set true env f) _ _) as [st2|] eqn:Es; [|discriminate]. inversion H; subst; clear H.
+    assert (I2 : dfc_inv env st2).
+    { eapply set_list_inv; [| |exact Es]; [intros; eapply IH; eauto | exact Hinv]. }
+    unfold dfc_inv, keys. simpl. intros x y Hx Hinx Hiny Hsp.
+    apply In_remove in Hinx as [Hinx _]. apply In_remove in Hiny as [Hiny _]. eapply I2; eauto.
+Qed.
+
+(* ---------- scripts ----------------------------------------------------------------------- *)
+
+Lemma run_set : forall fx env p rest st, run_gen fx env (SSet p :: rest) st =
+  match set fx env FUEL p (next st) (mkState (locals st) (S (next st)) (log st)) with
+  | None => None | Some st' => run_gen fx env rest st' end.
+Proof. reflexivity. Qed.
+
+Lemma run_get : forall fx env p rest st, run_gen fx env (SGet p :: rest) st =
+  match get env FUEL p st with
+  | None => None | Some (_, st') => run_gen fx env rest st' end.
+Proof. reflexivity. Qed.
+
+Lemma run_inv : forall env, env_ok env = true -> forall script st st',
+  dfc_inv env st -> run_script env script st = Some st' -> dfc_inv env st'.
+Proof.
+  intros env He. unfold run_script. induction script as [|[p|p] rest IH]; intros st st' Hinv H.
+  - simpl in H. inversion H; subst; auto.
+  - rewrite run_set in H.
+    destruct (set true env FUEL p (next st) (mkState (locals st) (S (next st)) (log st))) as [st1|] eqn:E; [|discriminate].
+    eapply IH; [|exact H]. eapply set_spec; [|exact E]. exact Hinv.
+  - rewrite run_get in H.
+    destruct (get env FUEL p st) as [[w st1]|] eqn:E; [|discriminate].
+    eapply IH; [|exact H].
+    destruct p as [|x p].
+    + change FUEL with (S 39) in E. rewrite get_S in E. destruct (lookup [] (locals st)).
+      * inversion E; subst; auto.
+      * simpl in E. discriminate.
+    + destruct (get_spec env He FUEL (x :: p) st) as [H1 _]; [congruence | exact Hinv|].
+      destruct (H1 _ _ E) as [I _]. exact I.
+Qed.
+
+Lemma dfc_linear_main : forall env script st, env_ok env = true ->
+  run_script env script empty_dfc = Some st -> dfc_inv env st.
+Proof.
+  intros env script st He H. eapply run_inv; eauto. intros p q _ [].
+Qed.
+
+(* the version before the repair: s = S(qubit, int); use s whole; s.q = fresh *)
+Definition bad_env : list ty := [TNode [TLeaf false false; TLeaf true true]].
+Definition bad_script : list sop := [SSet [0]; SGet [0]; SSet [0; 0]].
+
+Lemma dfc_unfixed_refuted_main : exists env script st, env_ok env = true /\
+  run_script_unfixed env script empty_dfc = Some st /\ ~ dfc_inv env st.
+Proof.
+  exists bad_env, bad_script.
+  destruct (run_script_unfixed bad_env bad_script empty_dfc) as [st|] eqn:E; [|vm_compute in E; discriminate].
+  exists st. split; [reflexivity|]. split; [reflexivity|].
+  intro H. vm_compute in E. inversion E; subst; clear E.
+  specialize (H [0] [0; 0]). unfold keys in H. simpl in H.
+  assert (lin_at bad_env [0; 0] = false).
+  { apply H; auto; [congruence | exists [0]; split; [congruence | reflexivity]]. }
+  vm_compute in H0. discriminate.
+Qed.
+
+Example dfc_fixed_ok : exists st, run_script bad_env (bad_script ++ [SGet [0]]) empty_dfc = Some st
+  /\ dfc_inv_b bad_env st = true /\ keys st = [[0]; [0; 1]].
+Proof. eexists. split; [vm_compute; reflexivity|]. split; reflexivity. Qed.
